@@ -196,6 +196,8 @@ pub struct Known {
     pub requires: Vec<String>,
     /// none of these may occur
     pub forbids: Vec<String>,
+    /// if present: every signature element must be in `requires` or in this list
+    pub only: Option<Vec<String>>,
     pub description: String,
 }
 #[derive(Clone, Debug, Default)]
@@ -219,6 +221,7 @@ impl KnownFindings {
                 clause: k["clause"].as_str().unwrap_or("").into(),
                 requires: strs(&k["requires"]),
                 forbids: strs(&k["forbids"]),
+                only: if k["only"].is_array() { Some(strs(&k["only"])) } else { None },
                 description: k["description"].as_str().unwrap_or("").into(),
             })
             .collect();
@@ -231,6 +234,7 @@ impl KnownFindings {
                 && k.clause == clause
                 && k.requires.iter().all(|r| signature.iter().any(|s| s == r))
                 && !k.forbids.iter().any(|f| signature.iter().any(|s| s == f))
+                && k.only.as_ref().map_or(true, |only| signature.iter().all(|s| k.requires.contains(s) || only.contains(s)))
         })
     }
 }
